@@ -93,7 +93,7 @@ def one_run(kind, i, seed, dense=True):
     out['status'] = v['status']
     out['probes_hit'] = v.get('probes_hit', [])
     if v['status'] == 'ok':
-        out['probes'] = v['probes']; out['touched'] = v['touched']; out['rep'] = v['rep']
+        out['probes'] = v['probes']; out['touched'] = v['touched']; out['rep'] = v['rep']; out['oos_getreg'] = v.get('oos_getreg', 0)
         out['ovl'] = SM.overlap_classes(ops)
     elif v['status'] == 'discard':
         out['reason'] = v['reason']
@@ -145,7 +145,7 @@ def main(args):
     recs = core.parallel_runs(lambda k: one_run(tasks[k][0], tasks[k][1], seed), list(range(len(tasks))), progress=stop)
     hashes, nontrivial = set(), set()
     ovl, probes_hit = {}, {}
-    steps = probes = reps = 0
+    steps = probes = reps = getreg_oos = 0
     tally = {}
     samples = []
     viol = []
@@ -177,6 +177,8 @@ def main(args):
         if r['status'] == 'violation':
             viol.append((k, r)); continue
         steps += r['n']; probes += r['probes']; reps += r['rep']
+        if r.get('oos_getreg'):
+            getreg_oos += 1
         hashes.add(r['hh'])
         if r['kind'] == 'small':
             small_done += 1
@@ -230,7 +232,8 @@ def main(args):
         'probe_lines_hit_runs': dict(sorted(probes_hit.items())),
         'probe_lines_never_hit': sorted(set(probe_sites()) - set(probes_hit)),
         'faults_fired': {'none': 'C07 has no fault dimension: the simulated nondeterminism is the operation history itself'},
-        'out_of_scope_observations': {'arith_mode_mismatches (C05/C06 territory, tallied, never decide)': tally},
+        'out_of_scope_observations': {'arith_mode_mismatches (C05/C06 territory, tallied, never decide)': tally,
+                                      'histories where get_reg() disagrees with the (correct) pool value (accessor outside the property, tallied)': getreg_oos},
         'samples': samples,
         'log_digest': core.digest(digests),
         'real_components': ['miasmx eval_abs / emul_helper / expr_simp / assembler / decoder from ' + core.REPO],
